@@ -199,15 +199,17 @@ def one_case(cs, idx, counters):
         os.makedirs(src)
         desc = make_tree(rng, src, opts)
         if opts['boot']:
-            with open(os.path.join(src, 'bootimg.bin'), 'wb') as f:
+            # (a quarter of the boot images have a name without an extension)
+            bootname = 'loader' if cs % 4 == 3 else 'bootimg.bin'
+            with open(os.path.join(src, bootname), 'wb') as f:
                 f.write(random.Random(3).randbytes(2048))
-            desc['bootimg.bin'] = ('file', random.Random(3).randbytes(2048))
+            desc[bootname] = ('file', random.Random(3).randbytes(2048))
             if rng.random() < 0.6:
                 # ordinary files that look like the boot catalog / boot image: same name in another
                 # directory, same size (one sector)
                 os.makedirs(os.path.join(src, 'backup'), exist_ok=True)
                 desc.setdefault('backup', ('dir', None))
-                for nm, sd_ in (('backup/boot.cat', 41), ('backup/bootimg.bin', 42)):
+                for nm, sd_ in (('backup/boot.cat', 41), ('backup/' + bootname, 42)):
                     data_ = random.Random(sd_).randbytes(2048)
                     with open(os.path.join(src, nm), 'wb') as f:
                         f.write(data_)
@@ -226,8 +228,8 @@ def one_case(cs, idx, counters):
         if opts['boot']:
             l1 = rng.choice([4, 4, 1, 8])
             bit = rng.random() < 0.3
-            cmd += ['-b', 'bootimg.bin', '-c', 'boot.cat', '-no-emul-boot', '-boot-load-size', str(l1)] + (['-boot-info-table'] if bit else [])
-            boot_req.append(('bootimg.bin', l1, bit))
+            cmd += ['-b', bootname, '-c', 'boot.cat', '-no-emul-boot', '-boot-load-size', str(l1)] + (['-boot-info-table'] if bit else [])
+            boot_req.append((bootname, l1, bit))
             for k in range(rng.choice([0, 0, 1, 2])):
                 # further boot entries, each with its own parameters
                 nm = 'efi%d.img' % k
@@ -240,7 +242,7 @@ def one_case(cs, idx, counters):
                 boot_req.append((nm, lk, False))
         hidden_names = []
         if opts['hide']:
-            files = [r for r, (k, _) in desc.items() if k == 'file' and '/' not in r and r != 'bootimg.bin']
+            files = [r for r, (k, _) in desc.items() if k == 'file' and '/' not in r and r not in ('bootimg.bin', 'loader')]
             if files:
                 # several patterns through the different spellings of the option: each one counts
                 hidden_names = files[:rng.choice([1, 2, 3])]
@@ -251,7 +253,7 @@ def one_case(cs, idx, counters):
             # -hide / -hide-joliet / -hide-udf take a file out of one view only
             import re as _re
             plain = sorted({r.rsplit('/', 1)[-1] for r, (k, _) in desc.items() if k == 'file' and _re.fullmatch(r'[A-Za-z0-9._-]+', r.rsplit('/', 1)[-1])
-                            and r.rsplit('/', 1)[-1] not in ('bootimg.bin', 'boot.cat') and not r.startswith('efi')} - set(hidden_names))
+                            and r.rsplit('/', 1)[-1] not in ('bootimg.bin', 'loader', 'boot.cat') and not r.startswith('efi')} - set(hidden_names))
             rng.shuffle(plain)
             for vw, flag, on in (('joliet', '-hide-joliet', opts['joliet']), ('udf', '-hide-udf', opts['udf']), ('iso', '-hide', opts['joliet'] or opts['udf'])):
                 if on and plain and rng.random() < 0.6:
@@ -300,10 +302,10 @@ def one_case(cs, idx, counters):
             et0 = _iet.decode(data)
             if et0.initial is not None:
                 import struct as _st
-                src_ = desc['bootimg.bin'][1]
+                src_ = desc[boot_req[0][0]][1]
                 words = _st.unpack('<%dI' % ((len(src_) - 64) // 4), src_[64:64 + (len(src_) - 64) // 4 * 4])
                 table = _st.pack('<IIII', 16, et0.initial.load_rba, len(src_), sum(words) & 0xffffffff) + b'\x00' * 40
-                expected['bootimg.bin'] = ('file', src_[:8] + table + src_[64:])
+                expected[boot_req[0][0]] = ('file', src_[:8] + table + src_[64:])
                 counters['boot_info_tables_expected'] = counters.get('boot_info_tables_expected', 0) + 1
         # boot options: one catalog entry per -b / -e, in order, with the load size given for it,
         # pointing at the sector where that file's bytes are
